@@ -67,7 +67,7 @@ WELLFORMED = ("well-formed values only (C01 clause): identifier tag/column names
 
 PROPS = {
     "C01": {
-        "quick": [phase(16, 1.0, 60)],
+        "quick": [phase(16, 4.0, 120)],
         "thorough": [phase(16, 1.0, 1500)],
         "rule": ("cases = model values from the stratified generator (stream 'scalar': every scalar kind in turn; stream 'value': "
                  "lists/dicts/grids nested to depth 4 (quick) / 6 (thorough)); each is encoded with to_zinc_string, decoded with "
@@ -82,7 +82,7 @@ PROPS = {
         "min_evals": {"quick": 50_000, "thorough": 1_000_000},
     },
     "C02": {
-        "quick": [phase(16, 1.0, 60)],
+        "quick": [phase(16, 4.0, 120)],
         "thorough": [phase(16, 1.0, 1500)],
         "rule": ("cases = the C01 generator's model values; each is serialised through serde_json::to_string / to_vec / to_value and "
                  "deserialised through from_str / from_slice / from_value (all 9 combinations, round robin), and scalars and top-level "
@@ -98,7 +98,7 @@ PROPS = {
         "min_evals": {"quick": 50_000, "thorough": 1_000_000},
     },
     "C10": {
-        "quick": [phase(16, 1.0, 60)],
+        "quick": [phase(16, 4.0, 120)],
         "thorough": [phase(16, 1.0, 1200)],
         "crash_is_violation": True,
         "rule": ("cases = Values built directly through public fields/constructors with every String field arbitrary (empty, NUL, "
@@ -130,7 +130,7 @@ PROPS = {
         "min_evals": {"quick": 1_000_000, "thorough": 50_000_000},
     },
     "C19": {
-        "quick": [phase(16, 1.0, 60)],
+        "quick": [phase(16, 4.0, 120)],
         "thorough": [phase(16, 1.0, 1200)],
         "rule": ("cases = generated values (every scalar kind in turn + nested values): exactly one of the 18 is_* predicates is true and it "
                  "is the model's kind; HaystackKind::from(&Value); every TryFrom<&Value> (17 target types) and every HaystackDict getter "
@@ -143,7 +143,7 @@ PROPS = {
         "min_evals": {"quick": 50_000, "thorough": 1_000_000},
     },
     "C04": {
-        "quick": [phase(16, 1.0, 90)],
+        "quick": [phase(16, 4.0, 120)],
         "thorough": [phase(16, 1.0, 1500)],
         "rule": ("cases = the C01 generator's model values; for each, (A) the spec-derived reference writer (harness/src/refzinc.rs) produces a "
                  "random legal spelling (space after commas, trailing list comma, space- or comma-separated dict tags, k vs k:M, exponent "
@@ -163,7 +163,7 @@ PROPS = {
         "min_evals": {"quick": 50_000, "thorough": 1_000_000},
     },
     "C03": {
-        "quick": [phase(16, 1.0, 90)],
+        "quick": [phase(16, 3.0, 120)],
         "thorough": [phase(16, 1.0, 1500),
                      phase(1, 1.0, 300, flavour="release", streams=LADDER_STREAMS),
                      phase(1, 1.0, 300, flavour="dev", streams=LADDER_STREAMS)],
@@ -190,7 +190,7 @@ PROPS = {
         "min_evals": {"quick": 300_000, "thorough": 10_000_000},
     },
     "C07": {
-        "quick": [phase(16, 1.0, 90)],
+        "quick": [phase(16, 4.0, 120)],
         "thorough": [phase(16, 1.0, 1500)],
         "rule": ("cases = (filter, record) pairs. (a) term matrix, complete: tag/not-tag/every comparison operator x every literal of a "
                  "25-literal pool, on every state of tag 'a' (missing, Null, each of 31 near-colliding values, empty list, list holding the "
@@ -207,7 +207,7 @@ PROPS = {
         "min_evals": {"quick": 300_000, "thorough": 8_000_000},
     },
     "C08": {
-        "quick": [phase(16, 1.0, 90)],
+        "quick": [phase(16, 4.0, 120)],
         "thorough": [phase(16, 1.0, 1500)],
         "rule": ("cases = filter trees: (a) the bounded space of all trees 't', 't and t', 't or t', 't and t or t', 't or t and t', "
                  "'(t or t) and t' over a set of 46 small terms (~2.96e5 trees; enumerated completely across shards in thorough, strided "
@@ -224,7 +224,7 @@ PROPS = {
         "min_evals": {"quick": 150_000, "thorough": 3_000_000},
     },
     "C09": {
-        "quick": [phase(16, 1.0, 90)],
+        "quick": [phase(16, 3.0, 120)],
         "thorough": [phase(16, 1.0, 1500),
                      phase(1, 1.0, 300, flavour="release", streams=LADDER_STREAMS),
                      phase(1, 1.0, 300, flavour="dev", streams=LADDER_STREAMS)],
@@ -271,7 +271,7 @@ PROPS = {
         "min_evals": {"quick": 196_249, "thorough": 196_249},
     },
     "C13": {
-        "quick": [phase(16, 1.0, 90)],
+        "quick": [phase(16, 2.0, 120)],
         "thorough": [phase(16, 1.0, 1500)],
         "exhaustive": True,
         "rule": ("(a) exhaustive over the shipped Project Haystack defs (tests/defs/defs.zinc): for every symbol supertypes_of, all_supertypes_of, "
@@ -329,7 +329,7 @@ PROPS = {
         "min_evals": {"quick": 200_000, "thorough": 1_000_000},
     },
     "C11": {
-        "quick": [phase(16, 1.0, 120)],
+        "quick": [phase(16, 2.0, 120)],
         "thorough": [phase(16, 1.0, 1800)],
         "rule": ("(1) fixed point: for every text a decoder accepts - grammar-generated Zinc with random spellings, the shipped corpus "
                  "files whole and in slices, accepted mutants of both, the library's Hayson for generated values and accepted mutants of "
@@ -346,7 +346,7 @@ PROPS = {
         "min_evals": {"quick": 200_000, "thorough": 5_000_000},
     },
     "C20": {
-        "quick": [phase(16, 1.0, 60)],
+        "quick": [phase(16, 4.0, 120)],
         "thorough": [phase(16, 1.0, 900)],
         "rule": ("(a) precedence, complete: all 2^8 presence subsets of dis, disMacro, disKey, name, def, tag, navName, id x 12 value-kind "
                  "variants (Str, empty Str, Ref with/without dis, Number, Bool, Marker, Uri, Symbol, Null, List, random Unicode), with and "
@@ -361,7 +361,7 @@ PROPS = {
         "min_evals": {"quick": 200_000, "thorough": 10_000_000},
     },
     "C05": {
-        "quick": [phase(16, 1.0, 90)],
+        "quick": [phase(16, 4.0, 120)],
         "thorough": [phase(16, 1.0, 1500)],
         "rule": ("cases = the C01 generator's model values; (A) the spec-derived Hayson reference writer (harness/src/refjson.rs) writes a "
                  "document with members of every object in random order (incl. _kind anywhere), '_kind':'dict' present/absent, grid meta "
@@ -379,7 +379,7 @@ PROPS = {
         "min_evals": {"quick": 50_000, "thorough": 1_000_000},
     },
     "C17": {
-        "quick": [phase(16, 1.0, 90)],
+        "quick": [phase(16, 4.0, 120)],
         "thorough": [phase(16, 1.0, 1500)],
         "crash_is_violation": True,
         "rule": ("cases = random histories of C API calls (quick 16x130 histories of 60 calls, thorough 16x1250 of 200) over a pool of "
